@@ -403,6 +403,10 @@ fn rule_of(e: &CheckError) -> (Rule, tree_sitter_graph::Location) {
 const VALID_NEIGHBOURS: &[(&str, &str)] = &[
     ("capture_used_only_in_nested_block", "(identifier) @c { if #true { for x in [1] { print @c } } }"),
     ("capture_used_only_as_scope", "(identifier) @c { node @c.n }"),
+    ("captures_that_differ_only_in_case", "(function_definition name: (identifier) @name body: (_) @Name) { print @name, @Name }"),
+    ("optional_global_with_default_tested_with_some", "global zq_o? = \"d\"\n(module) { if some zq_o { print zq_o } elif none zq_o { } }"),
+    ("list_global_with_default_iterated", "global zq_l* = \"\"\n(module) { for x in zq_l { print x } print [ y for y in zq_l ] }"),
+    ("optional_global_bound_by_let_then_tested", "global zq_o? = \"d\"\n(module) { let o = zq_o if some o { } }"),
     ("capture_used_only_in_later_set_literal_element", "(function_definition name: (identifier) @name) @fun { print { @fun.v, @name } }"),
     ("capture_used_only_in_later_list_literal_element", "(function_definition name: (identifier) @name) @fun { var m = 1 print [ m, @fun.v, @name ] }"),
     ("capture_used_only_as_scope_of_set_target", "(identifier) @x { var @x.v = 1 }\n(identifier) @y { set @y.v = 2 }"),
